@@ -612,7 +612,7 @@ CANCEL_EXEMPT = {
 }
 
 
-def cancel_settle(check: Check, repo: Repo, mods: list[Module]) -> None:
+def cancel_settle(check: Check, repo: Repo, mods: list[Module], floor: int = 8) -> None:
     rule = "CANCEL-SETTLE"
     check.rule(
         rule,
@@ -718,7 +718,7 @@ def cancel_settle(check: Check, repo: Repo, mods: list[Module]) -> None:
                          f"`{subject}` is cancelled but a path continues to {bad[-1].kind}@{getattr(bad[-1].ast, 'lineno', 'end')} without awaiting it: "
                          f"the caller is released while the cancelled work is still unwinding")
                 n += 1
-    check.floor(rule, 8, ".cancel() sites")
+    check.floor(rule, floor, ".cancel() sites")
 
 
 def cleanup_gather(check: Check, repo: Repo, mods: list[Module]) -> None:
@@ -866,3 +866,158 @@ def twin_handlers(check: Check, repo: Repo, mods: list[Module], rule: str = "TWI
 
 def _contains(root: ast.AST, node: ast.AST) -> bool:
     return any(x is node for x in ast.walk(root))
+
+
+def zip_align(check: Check, repo: Repo, mods: list[Module], rule: str = "ZIP-ALIGN") -> None:
+    check.rule(
+        rule,
+        "results gathered from several awaitables are paired back with their subjects only through "
+        "zip(..., strict=True) over two sequences that are provably parallel: the gathered awaitables are "
+        "enumerated from the other operand, or both lists are appended to in the same statement blocks "
+        "(co-appended); a subject list built under a different condition shifts every later pair",
+    )
+    from sa.guards import aliases_of
+
+    n = 0
+    for mod in mods:
+        for z in ast.walk(mod.tree):
+            if not (isinstance(z, ast.Call) and isinstance(z.func, ast.Name) and z.func.id == "zip" and len(z.args) >= 2):
+                continue
+            fn = enclosing_function(z)
+            if fn is None:
+                continue
+            outer = _outermost(fn)
+            names = [a.id for a in z.args if isinstance(a, ast.Name)]
+            if len(names) < 2:
+                continue
+            # which operand is a gathered result?
+            gathered = {}
+            for a in walk_body(fn):
+                if isinstance(a, ast.Assign) and len(a.targets) == 1 and isinstance(a.targets[0], ast.Name) and isinstance(a.value, ast.Await) \
+                        and isinstance(a.value.value, ast.Call) and last_attr(a.value.value) in ("gather", "gather_with_cancel"):
+                    gathered[a.targets[0].id] = a.value.value
+            g_ops = [nm for nm in names if nm in gathered]
+            if not g_ops:
+                continue
+            n += 1
+            strict = any(k.arg == "strict" and getattr(k.value, "value", None) is True for k in z.keywords)
+            other = [nm for nm in names if nm not in gathered][0] if [nm for nm in names if nm not in gathered] else None
+            gcall = gathered[g_ops[0]]
+            src = gcall.args[0] if gcall.args else None
+            parallel, why = False, ""
+            if isinstance(src, ast.Starred) and isinstance(src.value, ast.GeneratorExp):
+                it = unparse(src.value.generators[0].iter)
+                parallel = it == other
+                why = f"gathered awaitables enumerate `{it}`"
+            elif isinstance(src, ast.Name) and other is not None:
+                al = aliases_of(outer)
+
+                def appends(lst: str) -> list[ast.AST]:
+                    out = []
+                    for c in ast.walk(outer):
+                        if isinstance(c, ast.Call):
+                            if isinstance(c.func, ast.Attribute) and c.func.attr == "append" and unparse(c.func.value) == lst:
+                                out.append(c)
+                            elif isinstance(c.func, ast.Name) and al.get(c.func.id) == (lst, "append"):
+                                out.append(c)
+                    return out
+
+                def block_of(c: ast.AST) -> ast.AST | None:
+                    s = c
+                    while s is not None and not isinstance(s, ast.stmt):
+                        s = parent(s)
+                    return parent(s) if s is not None else None
+
+                a1, a2 = appends(src.id), appends(other)
+                b1, b2 = [block_of(c) for c in a1], [block_of(c) for c in a2]
+                parallel = bool(a1) and len(a1) == len(a2) and sorted(map(id, b1)) == sorted(map(id, b2))
+                why = (f"`{src.id}` and `{other}` are appended to in the same {len(a1)} block(s)" if parallel else
+                       f"`{src.id}` has {len(a1)} append site(s), `{other}` has {len(a2)}; they are not co-appended")
+            ok = strict and parallel
+            check.ob(rule, z, f"{node_text(z, 70)} in {qualname_of(z)}", ok,
+                     f"strict=True; {why}" if ok else f"{'no strict=True; ' if not strict else ''}{why or 'operands not provably parallel'}")
+    check.floor(rule, 3, "zip() calls pairing gathered results")
+
+
+def handler_nulls(check: Check, repo: Repo, mods: list[Module], rule: str = "HANDLER-NULLS") -> None:
+    check.rule(
+        rule,
+        "an except handler that records a field error with handle_field_error makes the position null: "
+        "after the call the handler returns None, assigns None to the value that is returned after the "
+        "try, or appends None to the result list - it never lets a value computed inside the failed try "
+        "(possibly a half-awaited coroutine) escape as the field's result",
+    )
+    n = 0
+    for mod in mods:
+        for fn in mod.functions():
+            for t in walk_body(fn):
+                if not isinstance(t, ast.Try):
+                    continue
+                for h in t.handlers:
+                    calls = [s for s in h.body if isinstance(s, ast.Expr) and isinstance(s.value, ast.Call) and last_attr(s.value) == "handle_field_error"]
+                    if not calls:
+                        continue
+                    n += 1
+                    after = h.body[h.body.index(calls[-1]) + 1:]
+                    ok, why = False, "nothing after handle_field_error nulls the position"
+                    for s in after:
+                        if isinstance(s, ast.Return) and (s.value is None or (isinstance(s.value, ast.Constant) and s.value.value is None)):
+                            ok, why = True, "return None"
+                        if isinstance(s, ast.Return) and isinstance(s.value, ast.Call) and s.value.args \
+                                and all(isinstance(a, ast.Constant) and a.value is None for a in s.value.args):
+                            ok, why = True, f"returns {unparse(s.value)[:50]}"
+                        if isinstance(s, ast.Assign) and isinstance(s.value, ast.Constant) and s.value.value is None \
+                                and isinstance(s.targets[0], ast.Name):
+                            nm = s.targets[0].id
+                            # the name must be the one the try body computes
+                            tried = {x.targets[0].id for b in t.body for x in ast.walk(b) if isinstance(x, ast.Assign)
+                                     and len(x.targets) == 1 and isinstance(x.targets[0], ast.Name)}
+                            if nm in tried:
+                                ok, why = True, f"{nm} = None replaces the value computed in the try"
+                        if isinstance(s, ast.Expr) and isinstance(s.value, ast.Call) and last_attr(s.value) == "append" \
+                                and s.value.args and isinstance(s.value.args[0], ast.Constant) and s.value.args[0].value is None:
+                            ok, why = True, "appends None to the result list"
+                    check.ob(rule, h, f"{qualname_of(h)}: handler at line +{h.lineno - fn.lineno}", ok, why)
+    check.floor(rule, 5, "field-error handlers")
+
+
+def await_guard(check: Check, repo: Repo, mods: list[Module], rule: str = "AWAIT-GUARD") -> None:
+    check.rule(
+        rule,
+        "a value obtained from a function declared to return AwaitableOrValue[...] is awaited only where a "
+        "must-fact is_awaitable(value) holds (if-test, conditional expression); awaiting the plain value of "
+        "the fully synchronous case raises TypeError and nulls a position that synchronous execution fills",
+    )
+    classes = ClassIndex(repo)
+    cg = CallGraph(repo, classes)
+    n = 0
+    for mod in mods:
+        for fn in mod.functions():
+            awaits = [a for a in walk_body(fn) if isinstance(a, ast.Await) and isinstance(a.value, ast.Name)]
+            if not awaits:
+                continue
+            targets = {id(c): t for c, t in cg.callees(_outermost(fn))}
+            flow = None
+            org = None
+            for a in awaits:
+                name = a.value.id
+                org = org or Origins(fn)
+                defs = org.reaching(name, a)
+                maybe_plain = False
+                for d in defs:
+                    v = d.value
+                    if d.kind in ("assign", "walrus") and isinstance(v, ast.Call):
+                        t = targets.get(id(v))
+                        if isinstance(t, FuncDef) and t.returns is not None and "AwaitableOrValue" in unparse(t.returns):
+                            maybe_plain = True
+                if not maybe_plain:
+                    continue
+                n += 1
+                flow = flow or FactFlow(CFG(fn))
+                facts = flow.facts_at(a)
+                ok = any(f.kind == "cond" and f.pol and isinstance(f.expr, ast.Call) and last_attr(f.expr).endswith("is_awaitable")
+                         and f.expr.args and unparse(f.expr.args[0]) == name for f in facts)
+                check.ob(rule, a, f"await {name} in {qualname_of(a)}", ok,
+                         f"dominated by is_awaitable({name})" if ok else
+                         f"`{name}` may be a plain value (its producer returns AwaitableOrValue) but is awaited unconditionally")
+    check.floor(rule, 2, "awaits of AwaitableOrValue results")
